@@ -21,6 +21,8 @@ def run_reproducers(ctx, prop):
     Returns {id: what} for those that still violate their listed invariants."""
     hits = {}
     for f in open_findings(prop):
+        if not f["reproducer"].startswith("findings/"):
+            continue   # identified by catalogue cell, re-confirmed by the catalogue run itself
         spec = json.load(open(os.path.join(VERIF, f["reproducer"])))
         kind = spec.get("kind", "behaviour")
         if kind not in ("behaviour", "gates"):
